@@ -134,3 +134,112 @@ def parent_map(tree: ast.AST) -> dict[int, ast.AST]:
         for c in ast.iter_child_nodes(n):
             pm[id(c)] = n
     return pm
+
+
+# ---------------------------------------------------------------------------------------------
+# index-in-range guards
+def _always_exits(body: list[ast.stmt]) -> bool:
+    """every path through ``body`` leaves the enclosing block (return/raise/continue/break)."""
+    if not body:
+        return False
+    last = body[-1]
+    if isinstance(last, (ast.Return, ast.Raise, ast.Continue, ast.Break)):
+        return True
+    if isinstance(last, ast.If):
+        return bool(last.orelse) and _always_exits(last.body) and _always_exits(last.orelse)
+    return False
+
+
+def _implies_ge_len(test: ast.AST, idx: str, seq: str, negate: bool = False) -> bool:
+    """Does ``test`` (or ``not test`` when negate) being TRUE imply ``idx >= len(seq)``?
+
+    Only the direct forms are recognised; the answer False means "not proven".
+    """
+
+    def is_len(e):
+        return isinstance(e, ast.Call) and is_name(e.func, "len") and len(e.args) == 1 and is_name(e.args[0], seq) and not e.keywords
+
+    if isinstance(test, ast.UnaryOp) and isinstance(test.op, ast.Not):
+        return _implies_ge_len(test.operand, idx, seq, not negate)
+    if isinstance(test, ast.BoolOp):
+        if isinstance(test.op, ast.And) and not negate:
+            return any(_implies_ge_len(v, idx, seq, negate) for v in test.values)
+        if isinstance(test.op, ast.Or) and not negate:
+            return all(_implies_ge_len(v, idx, seq, negate) for v in test.values)
+        if isinstance(test.op, ast.Or) and negate:  # not (a or b) = not a and not b
+            return any(_implies_ge_len(v, idx, seq, negate) for v in test.values)
+        if isinstance(test.op, ast.And) and negate:
+            return all(_implies_ge_len(v, idx, seq, negate) for v in test.values)
+        return False
+    if isinstance(test, ast.Compare) and len(test.ops) == 1:
+        l, op, r = test.left, test.ops[0], test.comparators[0]
+        if not negate:
+            # idx >= len(seq) | len(seq) <= idx | idx == len(seq) is not enough
+            if is_name(l, idx) and is_len(r) and isinstance(op, ast.GtE):
+                return True
+            if is_len(l) and is_name(r, idx) and isinstance(op, ast.LtE):
+                return True
+        else:
+            # not (idx < len(seq)) | not (len(seq) > idx)
+            if is_name(l, idx) and is_len(r) and isinstance(op, ast.Lt):
+                return True
+            if is_len(l) and is_name(r, idx) and isinstance(op, ast.Gt):
+                return True
+    return False
+
+
+def _rebinds(node: ast.AST, names: set[str]) -> bool:
+    """``node`` (a statement) may rebind one of ``names`` or mutate the object in place."""
+    for n in ast.walk(node):
+        if isinstance(n, ast.Name) and isinstance(n.ctx, (ast.Store, ast.Del)) and n.id in names:
+            return True
+        if isinstance(n, ast.Call) and isinstance(n.func, ast.Attribute) and isinstance(n.func.value, ast.Name) and n.func.value.id in names:
+            if n.func.attr in ("pop", "remove", "clear", "append", "extend", "insert", "sort", "reverse", "__delitem__"):
+                return True
+        if isinstance(n, (ast.Delete,)):
+            for t in n.targets:
+                if isinstance(t, ast.Subscript) and isinstance(t.value, ast.Name) and t.value.id in names:
+                    return True
+    return False
+
+
+def index_below_len_guarded(fn: ast.AST, sub: ast.Subscript) -> bool:
+    """Is ``seq[idx]`` (both plain names) reached only when ``idx < len(seq)``?
+
+    Recognised: an earlier statement in the same or an enclosing block
+    ``if <implies idx >= len(seq)>: <always exits>``, or an enclosing
+    ``if <implies idx < len(seq)>:`` body — with neither name rebound (nor the list mutated)
+    between the guard and the use.  The lower bound (idx >= -len) is NOT decided here.
+    """
+    if not (isinstance(sub.value, ast.Name) and isinstance(sub.slice, ast.Name)):
+        return False
+    seq, idx = sub.value.id, sub.slice.id
+    pm = parent_map(fn)
+    # climb from the subscript to the function, remembering (block owner, field, statement)
+    node: ast.AST = sub
+    while id(node) in pm:
+        parent = pm[id(node)]
+        if isinstance(node, ast.stmt):
+            for field in ("body", "orelse", "finalbody"):
+                block = getattr(parent, field, None)
+                if isinstance(block, list) and any(s is node for s in block):
+                    pos = next(i for i, s in enumerate(block) if s is node)
+                    # statements before `node` in this block, nearest first
+                    for j in range(pos - 1, -1, -1):
+                        s = block[j]
+                        if isinstance(s, ast.If) and _implies_ge_len(s.test, idx, seq) and _always_exits(s.body):
+                            if not any(_rebinds(t, {seq, idx}) for t in block[j + 1 : pos]) and not _rebinds(s, {seq, idx}):
+                                return True
+                        if _rebinds(s, {seq, idx}):
+                            break
+                    # enclosing `if idx < len(seq):` body
+                    if isinstance(parent, ast.If) and field == "body" and _implies_ge_len(parent.test, idx, seq, negate=True):
+                        if not any(_rebinds(t, {seq, idx}) for t in block[:pos]):
+                            return True
+                    if isinstance(parent, ast.If) and field == "orelse" and _implies_ge_len(parent.test, idx, seq):
+                        if not any(_rebinds(t, {seq, idx}) for t in block[:pos]):
+                            return True
+        if isinstance(parent, (ast.FunctionDef, ast.AsyncFunctionDef, ast.Lambda)) and parent is not fn:
+            return False
+        node = parent
+    return False
